@@ -91,7 +91,7 @@ class Gen:
             if rng.random() < 0.12:
                 p["sub"] = 1                # a pool of a factory-made class (same __name__ as other such classes)
             if cls == "S":
-                p["fk"] = rng.choice(["sync", "sync", "plain", "pmeth", "wrap", "abc"])
+                p["fk"] = rng.choice(["sync", "sync", "plain", "pmeth", "wrap", "abc", "part"])
                 p["fn"] = rng.randrange(3)
                 p["ash"] = rng.choice(ASH)
                 p["ecb"] = rng.choice(self.cb_kinds)
@@ -201,7 +201,7 @@ class Gen:
             return st
         kind = rng.choice(self.prof.get("kinds", ["apply", "apply", "map", "starmap", "doublestarmap"]))
         st["kind"] = kind
-        st["fk"] = rng.choice(["sync", "sync", "sync", "plain", "pmeth", "wrap", "abc"])
+        st["fk"] = rng.choice(["sync", "sync", "sync", "plain", "pmeth", "wrap", "abc", "part"])
         st["fn"] = rng.randrange(3)
         st["ecb"] = rng.choice(self.cb_kinds)
         st["ccb"] = rng.choice(self.cb_kinds)
@@ -241,11 +241,7 @@ class Gen:
             st["ash"] = 4            # args given as a one-shot counting iterator (only used for rejected requests)
         if bad == "notcoro":
             st["bad"] = "notcoro"
-            st["nck"] = rng.randrange(7)
-            if st["nck"] == 6 and kind != "apply" and "gn" not in st:
-                # (map variants evaluate func.__name__ for the generated group name before any check: a callable without
-                #  __name__ needs an explicit group name to get as far as the check - see DESIGN.md section 9)
-                st["gn"] = "pair%d" % self.label
+            st["nck"] = rng.randrange(8)     # (6, 7: callables without __name__ - map variants generate the group name first)
         elif bad == "nc0" and kind != "apply":
             st["nc"] = rng.choice([0, -1, 0.5, 0.999, -0.5])
         return st
@@ -509,7 +505,7 @@ class PhasedGen(Gen):
                 self.queue.append({"op": "spawn", "p": 0, "r": self.label, "kind": "start", "num": rng.choice([1, 2, 3])})
                 continue
             kind = rng.choice(["apply", "apply", "map", "starmap"])
-            st = {"op": "spawn", "p": 0, "r": self.label, "kind": kind, "fk": rng.choice(["sync", "sync", "plain", "pmeth", "abc"]),
+            st = {"op": "spawn", "p": 0, "r": self.label, "kind": kind, "fk": rng.choice(["sync", "sync", "plain", "pmeth", "abc", "part"]),
                   "fn": rng.randrange(3), "ecb": rng.choice(self.CBS), "ccb": rng.choice(self.CBS),
                   "sc": [self._pscript() for _ in range(rng.choice([1, 2, 3]))]}
             if kind == "apply":
